@@ -28,7 +28,7 @@ TIMEOUT = {"quick": 900, "thorough": 3600}
 
 
 def units(tier, seed):
-    out = [{"unit": "conversions", "kind": "conv", "cost": 1}, {"unit": "exact", "kind": "exact", "cost": 2}]
+    out = [{"unit": "conversions", "kind": "conv", "cost": 1}, {"unit": "exact", "kind": "exact", "cost": 2}, {"unit": "one-object-many-forms", "kind": "reuse", "cost": 2}]
     for ch in ("awgn", "laplacian", "nonlinear-identity", "nonlinear-cubic", "flatfading"):
         for cplx in (False, True):
             for mode in ("power", "snr"):
@@ -112,6 +112,34 @@ def run_unit(ctx, u):
         ctx.check(tuple(np_t.shape) == (3, t.numel()) and bool(torch.allclose(np_t.double(), ref_t, rtol=1e-5)), "conversions", "snr_to_noise_power|tensor broadcasting|conversions|differs")
         ctx.check(bool(torch.allclose(noise_power_to_snr(Pt.expand(3, t.numel()).contiguous(), np_t), t.reshape(1, -1).expand(3, -1), atol=1e-3)), "conversions", "noise_power_to_snr|tensor|conversions|differs")
         ctx.sample({"unit": "conversions", "db_grid": [dbs[0], dbs[-1], 0.25], "powers": [1e-3, 0.1, 1.0, 7.5, 1e3]})
+        return
+
+    if kind == "reuse":
+        # one channel object serves real, complex, float64 and differently shaped inputs in turn: under the same torch
+        # seed it must answer exactly like a fresh object (nothing computed for an earlier input may be reused)
+        g = torch.Generator().manual_seed(seed_for("c07r", ctx.seed))
+        forms = [((64,), False, torch.float32), ((4, 16), True, torch.float32), ((2, 3, 4, 4), False, torch.float64), ((8, 8), True, torch.float64), ((64,), False, torch.float32), ((1, 32), True, torch.float32)]
+        for ch in ("awgn", "laplacian", "nonlinear-identity", "flatfading"):
+            for mode, val in (("power", 0.5), ("snr", 3.0)):
+                for start in range(2):
+                    chan = make_channel(ch, mode, val)
+                    for step, (shape, cplx, dt) in enumerate(forms[start:] + forms[:start]):
+                        x = torch.randn(shape, generator=g, dtype=dt)
+                        if cplx:
+                            x = torch.complex(x, torch.randn(shape, generator=g, dtype=dt))
+                        sd = seed_for("c07r", ctx.seed, ch, mode, start, step)
+                        ctx.case("reuse", ch, mode, start, step)
+                        try:
+                            torch.manual_seed(sd)
+                            _, y_used = transmit(ch, chan, x)
+                            torch.manual_seed(sd)
+                            _, y_fresh = transmit(ch, make_channel(ch, mode, val), x)
+                        except Exception as e:  # noqa: BLE001
+                            ctx.violation(f"{ch},{mode}|one object across input forms|same-seed scaling|raised:{type(e).__name__}", step=step, shape=list(shape), error=str(e)[:200])
+                            continue
+                        ok = tuple(y_used.shape) == tuple(y_fresh.shape) and y_used.dtype == y_fresh.dtype and bool(torch.allclose(y_used, y_fresh, rtol=1e-6, atol=1e-7))
+                        ctx.check(ok, "same-seed scaling", f"{ch},{mode}|one object across input forms|same-seed scaling|a used object answers differently from a fresh one under the same seed", step=step, shape=list(shape), complex=cplx, dtype=str(dt), noise_power_used=float(((y_used - x).abs() ** 2).mean()) if tuple(y_used.shape) == tuple(x.shape) else None, noise_power_fresh=float(((y_fresh - x).abs() ** 2).mean()) if tuple(y_fresh.shape) == tuple(x.shape) else None)
+        ctx.sample({"unit": "one-object-many-forms", "forms": [[list(sh), "complex" if c else "real", str(d)] for sh, c, d in forms]})
         return
 
     if kind == "exact":
